@@ -173,6 +173,7 @@ def run_all(chk, fsets, tier):
     import rules_ivl
     for fs in fsets:
         rules_ivl.run_c04_fields(chk, facts.load(fs), fs, tier)
+    rules_ivl.run_golomb(chk, F, fsets[0], tier, "C04")
     # VByte (the complete 7-bit-group code): counts, step points and continuation bits on every value (rules shared with C18)
     rules_ivl.run_c18(chk, F, fsets[0], tier, prefix="D4.vbyte.")
     chk.trust("sa/refspec.py (field-level definitions written from the module docs, cross-checked against refcodes.py), transfer functions of sa/ivl.py")
